@@ -20,7 +20,7 @@ SPEC = {
         "external library behaviour enters the theorems as Section variables with NO assumed behaviour: NewPositionRange(...).Lines() "
         "(plines), IsValidMetricName, LabelName.IsValid, LabelValue.IsValid, ParseDuration; in the correspondence runs they are instantiated "
         "by Model/YamlPosLines.v (line extent of NewPositionRange, re-modelled) and by per-scalar answer bits obtained from the real library",
-        "harness: forest/File serialiser, document and wrapper generators, known-finding class predicates (hasAliasKey, hasTagKindMismatch)",
+        "harness: forest/File serialiser, document / wrapper / embedding generators, known-finding class predicates (hasTagKindMismatch, embeddedDupKeyOnly)",
         "yaml.v3 itself is an input (the forest), never modelled; theorems quantify over all forests, a superset of what yaml.v3 can return",
         "not modelled: rule comments, column offsets/positions (C06), Interval/QueryOffset/Limit values, PromQL AST; error messages are not compared",
     ],
@@ -28,7 +28,7 @@ SPEC = {
         "the un-shifting of lines/columns for wrapped documents (`displaced exactly by the wrapper`) is checked by the implementation-level "
         "oracle on generated wrappers, not proved: the wrapper theorem is stated on the coordinates yaml.v3 reports inside the wrapped document",
         "partial theorem guard wf_doc: document node is a document, roots are not aliases, alias fields only on alias nodes (true of every "
-        "yaml.v3 forest); no alias used as mapping key and no explicit tag contradicting the node kind (the two known-finding classes)",
+        "yaml.v3 forest) and no explicit tag contradicting the node kind (known-finding class C19-tag-kind)",
     ],
 }
 
@@ -39,17 +39,20 @@ def run(ctx):
 MANIFEST = {
     "text": "Theorems (Coq, no axioms, generic in every external oracle) about an executable Gallina model of pint's parser over the "
             "yaml.v3 node forest: (1) relaxed = strict on every strict-valid forest satisfying a guard (same rules: kind, name, expr, "
-            "fields, line ranges, in order) — the unguarded statement is machine-refuted by two witnesses that also fail on the real pint "
-            "(alias used as mapping key; explicit !!seq tag on a mapping), registered as known findings; (2) the relaxed descent terminates "
-            "on every forest (fuel = height always suffices); (3) wrapper invariance for ALL forests and all wrappers made of mapping levels, "
-            "sequence levels, document/alias levels, sibling keys/items and extra documents: the rules found in the wrapped node are exactly "
-            "the rules found in the hole; the key above a rule list is irrelevant unless it is `groups`. Tie: forest-level correspondence of "
-            "the real parser in both modes vs the model on the serialised real forest (generated strict-valid files, wrappers 0-4 levels, "
-            "field-level defects, byte/line mutations) + implementation-level oracles (strict vs relaxed on every strict-valid document; "
-            "wrapped vs bare rule list after un-shifting lines, columns and positions).",
+            "fields, line ranges, in order) - the unguarded statement is machine-refuted by a witness that also fails on the real pint "
+            "(explicit !!seq tag on a mapping; known finding C19-tag-kind); the second class found by the proof (alias used as mapping key) was "
+            "repaired in pint (3dfcdb6) and is now a regression theorem; (2) the relaxed descent terminates on every forest (fuel = height always "
+            "suffices); (3) wrapper invariance for ALL forests and all wrappers made of mapping levels, sequence levels, document/alias levels, "
+            "YAML-in-YAML levels (literal block scalars pint re-parses, e.g. a ConfigMap), sibling keys/items and extra documents: the rules found "
+            "in the wrapped node are exactly the rules found in the hole; the key above a rule list is irrelevant unless it is `groups`. Tie: "
+            "forest-level correspondence of the real parser in both modes vs the model on the serialised real forest (generated strict-valid "
+            "files, wrappers 0-4 levels, embedded documents, field-level defects, byte/line mutations) + implementation-level oracles (strict vs "
+            "relaxed on every strict-valid document; wrapped vs bare rule list after un-shifting lines, columns and positions, incl. direct rules "
+            "of mixed sequences; embedded document vs the scalar's value parsed on its own; non-literal scalars must not be looked into).",
     "note": "Coq 8.16.1 kernel+VM; no axioms; model hand-written and validated by differential execution (not verified from Go source); "
             "yaml.v3, NewPositionRange, Prometheus name/duration validators are inputs/oracles; line/column displacement of wrapped rules "
-            "checked by the oracle, not proved; guard of (1) excludes exactly the two known-finding classes.",
+            "checked by the oracle, not proved; guard of (1) excludes exactly the known-finding class C19-tag-kind; second open known finding "
+            "C19-embedded-dup-key-line (duplicated label key inside embedded YAML is reported without the embedding line offset).",
     "technique": "Coq theorems (induction over forests/wrapper contexts, fuel monotonicity and totality) over a Gallina parser model + "
-                 "forest-level differential correspondence + wrapper/strict-vs-relaxed implementation oracles",
+                 "forest-level differential correspondence + wrapper/embedded/strict-vs-relaxed implementation oracles",
 }
